@@ -26,7 +26,7 @@ def main():
                 print('translator (%s): %s' % (name, e))
     gen_coqproject.main()
     subprocess.run(['coq_makefile', '-f', '_CoqProject', '-o', 'Makefile'], cwd='coq', check=True, stdout=subprocess.DEVNULL)
-    rc = subprocess.run(['timeout', '3400', 'make', '-k', '-j16'], cwd='coq').returncode
+    rc = subprocess.run(['timeout', '3400', 'make', '-k', '-j16', 'COQC=' + os.path.join(HERE, 'harness', 'coqc_limited.sh')], cwd='coq').returncode
     if rc != 0:
         print('WARNING: full Coq build returned %d (each check reports its own obligations)' % rc)
     subprocess.run(['/venv/bin/python', 'harness/selfcheck.py'], check=True)
